@@ -7,9 +7,11 @@ RUN_MODULE = "RunC08"
 DRIVER = "equalizer_sim.py"
 SHARD = 400
 RULE = ("one case = one comparison run of the real Equalizer over a script (sequence of recording ids, each with one of "
-        "23 behaviour texts: 9 verdict-level, 9 process-level, 2 answer-level (the parent cannot load the answer / the worker answers (False, message)) + 3 in the F08 probe streams) in dedicated (simulated multiprocessing) or in-process "
+        "behaviour texts: 9 verdict-level, 9 process-level, 2 answer-level (the parent cannot load the answer / the worker answers (False, message)), 3 in the F08 probe streams, and 115 verdict shapes (what the comparator returns: a ComparatorResult or an instance of a subclass of it with any of the 5 statuses or a value that is no status, message none / text / falsy non-text / structured / number, with or without a diff; or a bare value that is no status)) in dedicated (simulated multiprocessing) or in-process "
         "mode, recycle rate, timeout, keep-results on/off, consumed fully / closed after n / consumer raising after n / "
         "id source raising after n; each case also plays every recording alone and the whole script in the other mode; "
+        "a comparison is observed whole: label, status, message kind, diff (whose recording it names), class of the "
+        "verdict object, attached replay, expected/actual, exception flags; "
         "non-trivial = at least two recordings and at least one behaviour other than 'equal'; distinct = distinct case")
 EXHAUSTIVE = {"quick": False, "thorough": True}
 ASSUMPTIONS = ["scheduling of parent and worker is the one implemented by harness/impl/fake_mp.py (worker runs whenever "
@@ -19,6 +21,12 @@ ASSUMPTIONS = ["scheduling of parent and worker is the one implemented by harnes
                "results cross the process boundary unchanged or not at all (pickling is not modelled: a result that "
                "does not pickle in the worker is the behaviour 'drops', one that does not unpickle in the parent is "
                "'unloadable')",
+               "the comparator's subclass of ComparatorResult is declared at module level (it pickles); a locally "
+               "declared one is the behaviour 'drops'; the real-process script of the thorough tier sends diffs, "
+               "structured messages and subclass instances through a real pipe",
+               "an unrenderable verdict (message that is not text and truthy, status that is no EqualityStatus) is "
+               "expected to cost a framework failure of its own recording at most: the direct predicate accepts the "
+               "comparator's status or EqualizerFailure for it (the model says EqualizerFailure, as the code does)",
                "closing / dropping a suspended generator runs its finally block (Python semantics) - abandonment "
                "after n yields is modelled as the run over the first n recordings"]
 TRUSTED = ["fake multiprocessing / clock / kill (harness/impl/fake_mp.py) under the real Equalizer",
@@ -52,6 +60,26 @@ def generate(rng, tier):
             if len(ids) == 4:
                 for rate in (1, 2, 3):
                     cases.append(G.mk(ids, behs, rate=rate, timeout=1, keep=(rate == 1)))
+    # what the comparator returns is the user's: every shape of verdict (status or a value that is none; message none /
+    # text / structured; diff; subclass instance; bare foreign value).  Deterministic probe: each representative shape
+    # between two ordinary recordings, both modes x keep-results, at a recycle boundary ...
+    probes = ["cr:Different:text:1:plain", "cr:Failed:text:1:sub", "cr:Equal:none:1:plain", "cr:Fixed:text:0:sub",
+              "cr:Different:struct:0:plain", "cr:Different:struct:1:sub", "cr:Failed:num:0:plain",
+              "cr:Equal:falsy:1:plain", "cr:EqualizerFailure:text:1:plain", "cr:EqualizerFailure:struct:0:plain",
+              "cr:none:none:0:plain", "cr:true:text:1:plain", "cr:name:none:0:plain",
+              "foreign:none", "foreign:true", "foreign:name"]
+    for k, b in enumerate(probes):
+        for dedicated in (True, False):
+            for keep in (False, True):
+                cases.append(G.mk([1, 2, 3], ["equal", b, "different"], dedicated=dedicated, rate=1 + (k + keep) % 2,
+                                  timeout=2, keep=keep, probe="verdict-shapes"))
+    # ... and shapes mixed with everything else in random scripts
+    shapes_w = [0.6] * len(G.SHAPE_BEH)
+    for _ in range(70 if tier == "quick" else 900):
+        ids, behs = G.rand_script(rng, MAIN + G.SHAPE_BEH, W_MAIN + shapes_w, 10)
+        cases.append(G.mk(ids, behs, dedicated=rng.random() < 0.7, rate=rng.choice([1, 2, 2, 3, 5, 0]),
+                          timeout=rng.choice([1, 2, 2, 3]), keep=rng.random() < 0.5,
+                          consume=G.rand_consume(rng, len(ids)), probe="verdict-shapes"))
     # probe streams for the known finding F08 (untagged queues): late answers and stale tasks
     n_probe = 30 if tier == "quick" else 400
     for k in range(n_probe):
@@ -115,6 +143,13 @@ def direct(case, obs):
         if ded or not any(proc_fault[:len(cmps) + 1]):
             fails.append(("run-aborted", "run ended with %s after %d verdicts" % (out, len(cmps))))
         want = want[:len(cmps)]      # in-process: a replay that exits / hangs the interpreter takes the run with it
+    elif out.startswith("escaped"):
+        k = len(cmps)
+        fails.append(("run-aborted", "an exception left run_comparison (%s: %s) while r%s (%s) was compared: it and the "
+                      "%d recording(s) after it got no comparison"
+                      % (out[8:], obs.get("why"), want[k] if k < len(want) else "?",
+                         G.beh_of(case, want[k]) if k < len(want) else "?", max(0, len(want) - k - 1))))
+        want = want[:len(cmps)]
     if labels != want:
         if len(labels) == len(want) and sorted(map(str, labels)) != sorted(map(str, want)):
             fails.append(("wrong-label", "labels %s for ids %s" % (labels, want)))
@@ -133,12 +168,19 @@ def direct(case, obs):
             fails.append((sig("verdict-differs-from-alone"),
                           "comparison #%d of r%s (%s) is %s but played alone it is %s" % (k, i, b, c, alone[0][0])))
         exp = G.expected_status(b, ded, T)
-        if exp is not None and c[1] != exp:
+        if not G.status_ok(exp, c[1]):
             fails.append((sig("wrong-status"), "comparison #%d of r%s (%s): status %s, expected %s" % (k, i, b, c[1], exp)))
+        if c[0] == i:
+            fails += [(sig(sg), "comparison #%d: %s" % (k, m)) for sg, m in G.payload_fails(b, c)]
     # in-process and dedicated-process execution give the same verdicts
     neutral = all(G.mode_neutral(G.beh_of(case, i), T) for i in ids)
+    # (the WHOLE comparison: label, status, message kind, diff, class of the verdict, attached replay, expected/actual)
     if neutral and case.get("consume", ["full"])[0] == "full" and obs["other_mode"][0] != cmps:
-        fails.append(("modes-disagree", "dedicated and in-process runs differ: %s vs %s" % (cmps, obs["other_mode"][0])))
+        other = obs["other_mode"][0]
+        where = [k for k in range(min(len(cmps), len(other))) if cmps[k] != other[k]][:1]
+        fails.append(("modes-disagree", "%s and %s runs differ%s: %s vs %s"
+                      % ("dedicated" if ded else "in-process", "in-process" if ded else "dedicated",
+                         " at comparison #%d" % where[0] if where else " in length", cmps, other)))
     return fails
 
 
@@ -177,7 +219,7 @@ def search_harder(rng, bad_cases):
 
 MANIFEST = dict(
     design_ref='6/C08',
-    text="Coq theorems over all scripts (sequences of recording ids with a per-recording behaviour: equal, different, player / extractor / comparator raises, bare status, worker exits, hangs, answers late, slow, answer lost in transit, worker dies before taking the task, answer that the parent cannot load or that the worker sent as (False, message)), all recycle rates, timeouts and keep-results settings, about a hand-written model of run_comparison, the dispatch/wait/timeout/recycle logic and the worker loop with explicit task queue, result queue, worker table and terminate flag: one comparison per id in input order with the right label (even with late answers); without late answers, stale tasks and lost answers the whole output is the map of the single-recording verdict (failures local, EqualizerFailure for every fault kind); dedicated and in-process modes agree; the late-answer, stale-task and lost-answer (read lock held by a killed idle worker) clauses are refuted with witnesses (known finding F08, three signatures) and the full statement is proved for the candidate repair (fresh queues per worker). Model tied to /repo on every run by running the REAL Equalizer single-threaded over fake multiprocessing/clock/kill on generated scripts and comparing every yielded comparison with the model by vm_compute; direct predicate: labels/order/count, attached replay belongs to the labelled id, verdict equals that recording played alone, failures become EqualizerFailure for that recording only, both modes agree; thorough tier adds real-process scripts.",
+    text="Coq theorems over all scripts (sequences of recording ids with a per-recording behaviour: equal, different, player / extractor / comparator raises, bare status, worker exits, hangs, answers late, slow, answer lost in transit, worker dies before taking the task, answer that the parent cannot load or that the worker sent as (False, message)), all recycle rates, timeouts and keep-results settings, about a hand-written model of run_comparison, the dispatch/wait/timeout/recycle logic and the worker loop with explicit task queue, result queue, worker table and terminate flag: one comparison per id in input order with the right label (even with late answers); without late answers, stale tasks and lost answers the whole output is the map of the single-recording verdict (failures local, EqualizerFailure for every fault kind); for every shape of comparator result (any status or a value that is none, any message, diff, subclass instance) the comparison carries the comparator's own status, diff and class when the framework can render the verdict in its log line and is a framework failure of that recording only when it cannot; the diff attached to a verdict is that recording's or none; dedicated and in-process modes agree on the whole comparison (diff and class of the verdict included); the late-answer, stale-task and lost-answer (read lock held by a killed idle worker) clauses are refuted with witnesses (known finding F08, three signatures) and the full statement is proved for the candidate repair (fresh queues per worker). Model tied to /repo on every run by running the REAL Equalizer single-threaded over fake multiprocessing/clock/kill on generated scripts and comparing every yielded comparison with the model by vm_compute; direct predicate: labels/order/count, attached replay belongs to the labelled id, verdict equals that recording played alone, failures become EqualizerFailure for that recording only, the verdict's diff and class are the comparator's for that recording, an exception leaving run_comparison is a failure, both modes agree on the whole comparison; thorough tier adds real-process scripts.",
     note='Trusted: Coq kernel + vm_compute; hand-written model; the scheduling implemented by the fake multiprocessing layer (one resolution of each race; real interleavings, pickling across the pipe and a worker killed while holding a queue lock are runtime residue, sampled by the real-process scripts); os.kill succeeds. Late answers / stale tasks / lost answers are known finding F08 (probe streams, KNOWN-FINDING lines).',
     technique='Coq proof (invariant over the parent loop, induction over scripts and over the wait loop) + model/implementation correspondence by vm_compute over a deterministic multiprocessing simulator + real-process sampling',
 )
